@@ -2953,6 +2953,7 @@ static void AssembleFile_InitPass(void) {
 
     ErrorCount = 0;
     WarnCount  = 0;
+    JmpErrors  = 0;
 
     InitPass();
     AsmLabelPassInit();
